@@ -18,6 +18,7 @@ from ..dynamics.integration_events.finite_thrust import (
     ScheduledFiniteBurn,
     ScheduledFiniteManeuver,
 )
+from ..dynamics.integration_events.scheduled_impulse import ScheduledImpulse
 from ..dynamics.integration_events.station_keeping import StationKeeper
 from ..physics.maths import fpe_equals
 from ..scenario.clock import ScenarioClock
@@ -32,6 +33,10 @@ if TYPE_CHECKING:
     from ..data.events import Event
     from ..physics.time.stardate import JulianDate, ScenarioTime
     from ..scenario.config.platform_config import PlatformConfig
+
+
+_EVENT_TIME_NUDGE_SEC = 1.0e-6
+"""``float``: offset into a step given to an impulse whose time coincides with the step's start, sec."""
 
 
 class Agent(metaclass=ABCMeta):
@@ -144,6 +149,11 @@ class Agent(metaclass=ABCMeta):
         """
         # [NOTE][parallel-maneuver-event-handling] Step two: call this method via the event handler to queue the
         # relevant :class:`.DiscreteStateChangeEvent`.
+        # [NOTE]: An impulse is handed over for the step that is about to be propagated. If date
+        #   conversion noise puts its time on (or before) the current time, it would be pruned as
+        #   "already in the past" without ever being applied: keep it just inside the step.
+        if isinstance(event, ScheduledImpulse) and not self._time < event.time:
+            event.time = type(event.time)(self._time + _EVENT_TIME_NUDGE_SEC)
         self.propagate_event_queue.append(event)
 
     def prunePropagateEvents(self) -> None:
